@@ -247,6 +247,7 @@ type c03Env struct {
 	fakeSSH    string
 	skippedBig int
 	tmpLeft    int
+	readerHung bool
 	hangs      map[string]int
 }
 
@@ -978,7 +979,15 @@ func (e *c03Env) runCase(c *c03Case, corr bool) error {
 		copy(id[:], idb)
 		var zero desync.ChunkID
 		if f[0] != "g" {
-			c.Impl = append(c.Impl, e.consumer(c, store, f, id, opi, verifying))
+			resc := make(chan string, 1)
+			go func() { resc <- e.consumer(c, store, f, id, opi, verifying) }()
+			select {
+			case x := <-resc:
+				c.Impl = append(c.Impl, x)
+			case <-time.After(8 * time.Second):
+				e.r.Fail("predicate", "consumer/"+f[0]+"-hangs/"+c03Top(c.Stack), "consumer "+f[0]+" over "+c.Stack.shape()+" did not return within 8 s", c)
+				return fmt.Errorf("consumer %s hung on %s", f[0], c.Stack.shape())
+			}
 			continue
 		}
 		chunk, err := store.GetChunk(id)
@@ -1179,6 +1188,26 @@ func (g *c03Gate) GetChunk(id desync.ChunkID) (*desync.Chunk, error) {
 // multi runs a consumer that uses several chunks of the stack at once.  Predicate: success =>
 // the output is the blob the index rows describe.
 func (e *c03Env) multi(c *c03Case, store desync.Store, m *c03Multi, verifying bool) {
+	if e.readerHung && m.Kind != "assemble" {
+		return
+	}
+	done := make(chan struct{})
+	go func() {
+		defer close(done)
+		e.multiRun(c, store, m, verifying)
+	}()
+	select {
+	case <-done:
+	case <-time.After(8 * time.Second):
+		// IndexPos.Read can loop without making progress; the goroutine is left behind
+		e.readerHung = true
+		e.r.Fail("predicate", "consumer/"+m.Kind+"-hangs/"+c03Top(c.Stack),
+			fmt.Sprintf("consumer %q over %s did not return within 8 s (a request neither fails nor delivers)", m.Kind, c.Stack.shape()), c)
+		e.r.Note("a reader consumer hung; the remaining reader consumers of this run were skipped")
+	}
+}
+
+func (e *c03Env) multiRun(c *c03Case, store desync.Store, m *c03Multi, verifying bool) {
 	flags := uint64(desync.CaFormatExcludeNoDump)
 	if c.Digest != "sha256" {
 		flags |= desync.CaFormatSHA512256
@@ -1207,6 +1236,52 @@ func (e *c03Env) multi(c *c03Case, store desync.Store, m *c03Multi, verifying bo
 			}
 		}
 		os.Remove(name)
+	case "handle":
+		// the file handle of a mounted index (mount-index.go indexFileHandle.read): every request
+		// is Seek(offset) + one Read on the SAME IndexPos, a failed request is answered with EIO
+		// and the handle is used again.  Requests seek elsewhere and come back, re-read failed
+		// ranges, alternate between intact and damaged chunks.  Predicate: bytes delivered
+		// without an error are the blob's bytes at that offset.
+		r := desync.NewIndexReadSeeker(idx, store)
+		rnd := vh.NewRand(uint64(m.N)*7919 + uint64(len(blob)))
+		res = "ok"
+		nfail := 0
+		var lastFailed int64 = -1
+		for q := 0; q < 8+3*len(m.IDs) && len(blob) > 0; q++ {
+			ci := rnd.Intn(len(m.IDs))
+			start := int(idx.Chunks[ci].Start)
+			off := int64(start + rnd.Intn(m.Sizes[ci]))
+			if lastFailed >= 0 && rnd.Chance(1, 3) {
+				off = lastFailed // the same place again
+				if rnd.Bool() && off+1 < int64(len(blob)) {
+					off++ // or right next to it
+				}
+			}
+			n := 1 + rnd.Intn(2*m.Sizes[ci]+2)
+			buf := make([]byte, n)
+			if _, err := r.Seek(off, io.SeekStart); err != nil {
+				nfail++
+				lastFailed = off
+				continue
+			}
+			got, err := r.Read(buf)
+			if err != nil && err != io.EOF {
+				nfail++
+				lastFailed = off
+				continue
+			}
+			end := off + int64(got)
+			if verifying && (end > int64(len(blob)) || !bytes.Equal(buf[:got], blob[off:end])) {
+				res = "wrong"
+				e.r.Fail("predicate", "consumer/reused-reader-emits-wrong-bytes/"+c03Top(c.Stack),
+					fmt.Sprintf("index reader used like a mount handle over %s: request %d (Seek %d, Read %d) was answered without error with %d bytes that are not the blob's bytes there (%d earlier requests had failed)",
+						c.Stack.shape(), q, off, n, got, nfail), c)
+				break
+			}
+		}
+		if res == "ok" && nfail > 0 {
+			res = "ok-after-failures"
+		}
 	case "readers":
 		// two readers over the same store, used alternately: each holds its current chunk while
 		// the other one loads
@@ -1472,6 +1547,15 @@ func runC03(a vh.Args, o *vh.Oracle, r *vh.Result) error {
 			return err
 		}
 		if c.Stack == nil {
+			var rc c03RaceCase
+			if err := readJSON(a.Replay, &rc); err == nil && rc.Race != "" {
+				if err := c03RaceRun(e, &rc); err != nil {
+					return err
+				}
+				fmt.Printf("replay concurrent de-duplication (%s, write queue %v, GOMAXPROCS %d, %d waiters, %d rounds): %d rounds with a wrong answer; %s\n",
+					rc.Race, rc.Write, rc.Procs, rc.Waiters, rc.Rounds, rc.Bad, rc.Example)
+				return nil
+			}
 			return c03ReplayCLI(e, a.Replay)
 		}
 		if err := e.runCase(&c, true); err != nil {
@@ -1484,9 +1568,15 @@ func runC03(a vh.Args, o *vh.Oracle, r *vh.Result) error {
 	if err := c03Generate(e, rnd); err != nil {
 		return err
 	}
+	t1 := time.Now()
+	if err := c03Race(e, rnd.Fork()); err != nil {
+		return err
+	}
+	t2 := time.Now()
 	if err := c03CLI(e, rnd.Fork()); err != nil {
 		return err
 	}
+	r.Note("stage times: concurrent de-duplication %.1fs, CLI pipelines %.1fs", t2.Sub(t1).Seconds(), time.Since(t2).Seconds())
 	if e.tmpLeft > 0 {
 		r.Note("%d times LocalStore.StoreChunk left a .tmp-cacnk file behind after a failed rename (directory in the chunk's slot); not a wrong-bytes question", e.tmpLeft)
 	}
